@@ -11,11 +11,26 @@ pub fn arb_s(np: u8, ns: u8) -> BoxedStrategy<S> {
 }
 
 pub fn arb_ref(w_bad: u32) -> BoxedStrategy<AckRef> {
+    arb_ref_m(w_bad, 0)
+}
+
+/// like `arb_ref`, with malformed ack-id strings at weight `w_mal` (of about 14 + 2·w_bad)
+pub fn arb_ref_m(w_bad: u32, w_mal: u32) -> BoxedStrategy<AckRef> {
+    if w_mal == 0 {
+        return prop_oneof![
+            10 => (0u16..=65535).prop_map(AckRef::Recent),
+            4 => (0u16..=65535).prop_map(AckRef::Own),
+            w_bad => (0u16..=65535).prop_map(AckRef::Foreign),
+            w_bad => (0u32..50).prop_map(AckRef::Unknown),
+        ]
+        .boxed();
+    }
     prop_oneof![
         10 => (0u16..=65535).prop_map(AckRef::Recent),
         4 => (0u16..=65535).prop_map(AckRef::Own),
         w_bad => (0u16..=65535).prop_map(AckRef::Foreign),
         w_bad => (0u32..50).prop_map(AckRef::Unknown),
+        w_mal => (0u8..16).prop_map(AckRef::Malformed),
     ]
     .boxed()
 }
@@ -117,6 +132,12 @@ pub struct W {
     pub burst_kinds: Vec<u8>,
     pub burst_n: (u8, u8),
     pub adv_ms: Vec<u64>,
+    /// weight of malformed ack-id strings among the ids of unary Acknowledge / ModifyAckDeadline
+    pub malformed_refs: u32,
+    /// weight (of about 20) of an empty ack-id list
+    pub empty_refs: u32,
+    /// weight of a Publish request that carries no message
+    pub empty_publish: u32,
     pub payload_rich: bool,
     /// weight of multi-megabyte payloads among the plain ones (of about 46)
     pub big_payload: u32,
@@ -165,6 +186,9 @@ impl Default for W {
             burst_kinds: vec![0, 1, 2, 3, 4],
             burst_n: (17, 40),
             adv_ms: vec![1, 37, 64, 100, 5_000, 9_950, 10_200, 12_300, 30_000],
+            malformed_refs: 0,
+            empty_refs: 1,
+            empty_publish: 0,
             payload_rich: false,
             big_payload: 1,
             push_variants: vec![0],
@@ -184,7 +208,7 @@ pub fn arb_payload(rich: bool, big: u32) -> BoxedStrategy<Payload> {
             40 => Just(Payload::plain()),
             5 => (0u8..3).prop_map(|a| Payload { kind: 0, len: 0, attrs: a, odd: false }),
             // a few really large messages (response-size budgets)
-            big.max(1) => prop_oneof![Just(2_000_000u32), Just(2_600_000u32), Just(1_100_000u32), Just(100_000u32)].prop_map(|len| Payload { kind: 4, len, attrs: 0, odd: false }),
+            big.max(1) => prop_oneof![Just(2_000_000u32), Just(2_600_000u32), Just(1_100_000u32), Just(100_000u32), Just(3_400_000u32)].prop_map(|len| Payload { kind: 4, len, attrs: 0, odd: false }),
         ]
         .boxed();
     }
@@ -205,7 +229,12 @@ pub fn arb_op(w: &W) -> BoxedStrategy<Op> {
     let t = arb_t(w.np, w.nt);
     let s = arb_s(w.np, w.ns);
     let a = proptest::bool::weighted(w.p_async).boxed();
-    let refs = vec(arb_ref(w.bad_refs), 1..4).boxed();
+    // now and then an empty id list (a legal request that still has to name an existing subscription)
+    let refs = prop_oneof![
+        20 => vec(arb_ref_m(w.bad_refs, w.malformed_refs), 1..4),
+        w.empty_refs => Just(Vec::new()),
+    ]
+    .boxed();
     let dl = pick_from(&w.dls);
     let maxm = pick_from(&w.max_msgs);
     let adv = pick_from(&w.adv_ms);
@@ -255,6 +284,7 @@ pub fn arb_op(w: &W) -> BoxedStrategy<Op> {
     add(w.long_ack, (s.clone(), arb_long_refs(false), secs.clone(), a.clone()).prop_map(|(s, refs, secs, a)| Op::Modify { s, refs, secs, a }).boxed());
     add(w.nack, (s.clone(), refs.clone(), a.clone()).prop_map(|(s, refs, a)| Op::Modify { s, refs, secs: 0, a }).boxed());
     add(w.modify, (s.clone(), refs.clone(), secs.clone(), a.clone()).prop_map(|(s, refs, secs, a)| Op::Modify { s, refs, secs, a }).boxed());
+    add(w.empty_publish, (t.clone(), a.clone()).prop_map(|(t, a)| Op::Publish { t, n: 0, payload: Payload::plain(), a }).boxed());
     add(w.stream_open, (s.clone(), prop_oneof![Just(0i32), Just(1), Just(2), Just(10), Just(1000)]).prop_map(|(s, max_out)| Op::StreamOpen { s, max_out }).boxed());
     add(
         w.stream_send,
